@@ -142,7 +142,7 @@ def gzipFooter (len : Nat) (hdr : Option (List UInt8)) : Outcome Footer :=
     let hex ← sliceB sub 0 16
     match parseIntHex64 hex with
     | none => err
-    | some off => ok ⟨off, off, 0⟩
+    | some off => if off < 0 then err else ok ⟨off, off, 0⟩   -- `if tocOffset < 0` (18babb7)
 
 /-- `LegacyGzipDecompressor.ParseFooter`. -/
 def legacyFooter (len : Nat) (hdr : Option (List UInt8)) : Outcome Footer :=
@@ -156,7 +156,7 @@ def legacyFooter (len : Nat) (hdr : Option (List UInt8)) : Outcome Footer :=
     let hex ← sliceB extra 0 16
     match parseIntHex64 hex with
     | none => err
-    | some off => ok ⟨off, off, 0⟩
+    | some off => if off < 0 then err else ok ⟨off, off, 0⟩   -- `if tocOffset < 0` (18babb7)
 
 /-- `externaltoc.GzipDecompressor.ParseFooter`. -/
 def extFooter (len : Nat) (hdr : Option (List UInt8)) : Outcome Footer :=
@@ -391,6 +391,11 @@ deriving Repr, DecidableEq
 
 def clampN (n len : Int) : Int := if n < 0 then 0 else if n > len then len else n
 
+/-- `chunkContains(chunkOffset, chunkSize, pos)` (95288ee): a non-empty range, free from `int64`
+overflow, that contains `pos`.  `pos - chunkOffset` cannot wrap once `0 ≤ chunkOffset ≤ pos`. -/
+def chunkContains (co cs pos : Int) : Bool :=
+  decide (cs > 0 ∧ co ≥ 0 ∧ cs ≤ 9223372036854775807 - co ∧ co ≤ pos ∧ pos - co < cs)
+
 def lowerOf (off : Int) (c : Chunk) : Int := positive (wrap64 (off - c.co))
 def upperOf (lenP off : Int) (c : Chunk) : Int :=
   positive (wrap64 (wrap64 (c.co + c.cs) - wrap64 (off + lenP)))
@@ -433,7 +438,7 @@ def readLoop (bound lenP off : Int) : List Chunk → Int → List REv → List R
     let lower := lowerOf off c
     let upper := upperOf lenP off c
     let expected := expectedOf c lower upper
-    if c.cs ≤ 0 ∨ expected ≤ 0 ∨ expected > lenP - nr then (evs, err) else
+    if chunkContains c.co c.cs (wrap64 (off + nr)) = false ∨ expected ≤ 0 ∨ expected > lenP - nr then (evs, err) else
     match hitRes c nr expected lenP with
     | Outcome.panic => (evs, Outcome.panic)
     | err => (evs, err)
@@ -458,13 +463,16 @@ structure PChunk where
   pos : Int := 0
 deriving Repr
 
-/-- The collection loop of `GetPassthroughFd`: chunks, total size, hasLargeChunk. -/
-def ptCollect (B : Int) : List (Int × Int) → List PChunk → Int → Bool → List PChunk × Int × Bool
-  | [], cs, total, large => (cs.reverse, total, large)
-  | (co, sz) :: rest, cs, total, large =>
+/-- The collection loop of `GetPassthroughFd`: chunks, total size, hasLargeChunk; `none` when a
+chunk does not contain the position the loop is at (`chunkContains`, 95288ee).  The loop starts at
+offset 0 and continues at `chunkOffset + chunkSize`. -/
+def ptCollect (B : Int) : List (Int × Int) → Int → List PChunk → Int → Bool → Option (List PChunk × Int × Bool)
+  | [], _, cs, total, large => some (cs.reverse, total, large)
+  | (co, sz) :: rest, pos, cs, total, large =>
+    if chunkContains co sz pos = false then none else
     let l1 := sz > B
     let l2 := B > 0 ∧ sz > 0 ∧ Int.tdiv co B ≠ Int.tdiv (wrap64 (wrap64 (co + sz) - 1)) B
-    ptCollect B rest (⟨co, sz, 0⟩ :: cs) (wrap64 (total + sz)) (large || l1 || l2)
+    ptCollect B rest (wrap64 (co + sz)) (⟨co, sz, 0⟩ :: cs) (wrap64 (total + sz)) (large || l1 || l2)
 
 /-- Chunks of one batch with their buffer positions (`break` on the first chunk starting at or
 behind the batch end, `continue` on chunks ending at or before the batch start). -/
@@ -516,9 +524,11 @@ def ptBatches (B total : Int) (W : Nat) (chunks : List PChunk) : Nat → Int →
 /-- `GetPassthroughFd` against a scripted store (the script is exhausted when the sequential
 fallback asks again, so that path ends at once). -/
 def passthrough (B : Int) (W : Nat) (script : List (Int × Int)) : List REv × Outcome Unit :=
-  let (chunks, total, large) := ptCollect B script [] 0 false
-  if large then ([], ok ()) else
-  let batchCount := Int.tdiv (total + B - 1) B
-  ptBatches B total W chunks batchCount.toNat 0 []
+  match ptCollect B script 0 [] 0 false with
+  | none => ([], err)
+  | some (chunks, total, large) =>
+    if large then ([], ok ()) else
+    let batchCount := Int.tdiv (total + B - 1) B
+    ptBatches B total W chunks batchCount.toNat 0 []
 
 end SV.Hostile
